@@ -25,7 +25,8 @@ pub struct Case {
     /// equality relations between inputs that are otherwise independent (0 = none): 1 psk_id == info, 2 psk == info,
     /// 3 psk == psk_id, 4 psk == psk_id == info == every aad, 5 every aad == info (and one exporter context == info),
     /// 6 info == the recipient's public key bytes, 7 psk_id == the encapsulated-key-sized prefix of info, 8 the RNG hands out
-    /// the bytes the recipient key was derived from (skE = skR, enc = pkR), 9 the same with the sender identity key
+    /// the bytes the recipient key was derived from (skE = skR, enc = pkR), 9 the same with the sender identity key,
+    /// 10 every plaintext == its aad == info, 11 every plaintext == psk and one exporter context == psk
     #[serde(default)]
     pub equal: u8,
 }
@@ -76,9 +77,9 @@ impl Part for C02 {
     }
     fn bound(&self, cfg: &Cfg) -> String {
         if cfg.tier.thorough() {
-            "48 suites x 4 modes x 6 info lengths x 5 psk shapes (psk modes) x 6 message sequences (up to 25 messages) x 2 of 5 fills rotating; 9 equality relations between inputs x 48 suites x modes; every length 0..600 of info / psk / psk_id for 3 suites".into()
+            "48 suites x 4 modes x 6 info lengths x 5 psk shapes (psk modes) x 6 message sequences (up to 25 messages) x 2 of 5 fills rotating; 11 equality relations between inputs x 48 suites x modes; every length 0..600 of info / psk / psk_id for 3 suites".into()
         } else {
-            "48 suites x 4 modes x 2 info lengths x 2 psk shapes (psk modes) x 3 message sequences x 1 fill; 9 equality relations between inputs x 16 suites x modes; every length 0..300 of info / psk / psk_id for 3 suites".into()
+            "48 suites x 4 modes x 2 info lengths x 2 psk shapes (psk modes) x 3 message sequences x 1 fill; 11 equality relations between inputs x 16 suites x modes; every length 0..300 of info / psk / psk_id for 3 suites".into()
         }
     }
     fn enumerate(&self, cfg: &Cfg) -> Vec<Case> {
@@ -116,8 +117,8 @@ impl Part for C02 {
                 continue;
             }
             for mode in MODES {
-                for equal in 1..=9u8 {
-                    if !mode.has_psk() && matches!(equal, 1 | 2 | 3 | 4 | 7) {
+                for equal in 1..=11u8 {
+                    if !mode.has_psk() && matches!(equal, 1 | 2 | 3 | 4 | 7 | 11) {
                         continue;
                     }
                     if !mode.has_auth() && equal == 9 {
@@ -215,8 +216,12 @@ impl Part for C02 {
         let mut cts = vec![];
         if c.suite.aead.can_seal() {
             for (i, &(pl, al)) in c.msgs.iter().enumerate() {
-                let pt = bytes(c.fill, pl, 100 + i as u64, cfg.seed);
-                let aad = if matches!(c.equal, 4 | 5) { info.clone() } else { bytes(c.fill, al, 200 + i as u64, cfg.seed) };
+                let pt = match c.equal {
+                    10 => info.clone(),
+                    11 => psk.clone(),
+                    _ => bytes(c.fill, pl, 100 + i as u64, cfg.seed),
+                };
+                let aad = if matches!(c.equal, 4 | 5 | 10) { info.clone() } else { bytes(c.fill, al, 200 + i as u64, cfg.seed) };
                 let want = ref_s.seal(&aad, &pt).unwrap();
                 let got = if i % 2 == 0 {
                     s.seal(&pt, &aad)
@@ -250,7 +255,7 @@ impl Part for C02 {
         }
         if c.equal > 0 {
             // exporter context equal to the info string / to the psk_id
-            for ectx in [&info, &psk_id] {
+            for ectx in [&info, &psk_id, &psk] {
                 let want = ref_s.export(ectx, nh + 1).unwrap();
                 expect_bytes(&mut out, "sender export(ctx = another input of the session)", &s.export(ectx, nh + 1), &want);
             }
